@@ -9,7 +9,49 @@ import (
 	"github.com/launchdarkly/go-jsonstream/v3/jreader"
 )
 
+// maxJSONNestingDepth is the deepest nesting of arrays and objects accepted in a document given as bytes, the same
+// limit that encoding/json applies. Arbitrary JSON values (variations, clause values) and unknown properties are read
+// recursively, so without a limit a small hostile document ("[[[[...") overflows the goroutine stack, which is a fatal
+// error that cannot be recovered.
+const maxJSONNestingDepth = 10000
+
+type jsonNestingDepthError struct{}
+
+func (jsonNestingDepthError) Error() string { return "exceeded max JSON nesting depth" }
+
+// checkJSONNestingDepth reports an error if data nests arrays/objects deeper than maxJSONNestingDepth. It does not
+// validate the JSON otherwise; brackets inside string literals are not counted.
+func checkJSONNestingDepth(data []byte) error {
+	depth, inString, escaped := 0, false, false
+	for _, ch := range data {
+		switch {
+		case inString:
+			switch {
+			case escaped:
+				escaped = false
+			case ch == '\\':
+				escaped = true
+			case ch == '"':
+				inString = false
+			}
+		case ch == '"':
+			inString = true
+		case ch == '[' || ch == '{':
+			depth++
+			if depth > maxJSONNestingDepth {
+				return jsonNestingDepthError{}
+			}
+		case ch == ']' || ch == '}':
+			depth--
+		}
+	}
+	return nil
+}
+
 func unmarshalFeatureFlagFromBytes(data []byte) (FeatureFlag, error) {
+	if err := checkJSONNestingDepth(data); err != nil {
+		return FeatureFlag{}, err
+	}
 	r := jreader.NewReader(data)
 	parsed := unmarshalFeatureFlagFromReader(&r)
 	if err := r.Error(); err != nil {
@@ -29,6 +71,9 @@ func unmarshalFeatureFlagFromReader(r *jreader.Reader) FeatureFlag {
 }
 
 func unmarshalSegmentFromBytes(data []byte) (Segment, error) {
+	if err := checkJSONNestingDepth(data); err != nil {
+		return Segment{}, err
+	}
 	r := jreader.NewReader(data)
 	parsed := unmarshalSegmentFromReader(&r)
 	if err := r.Error(); err != nil {
